@@ -7,10 +7,10 @@ C13 — `to_dict`/`from_dict` (and JSON) reproduce the model.
 * table layer: the premise is decided on the tables regenerated from the current `from_dict`/`to_dict`
   (`Gen/SchemaDict.lean`) — `dict_tables_ok`.  The tables of the repaired `from_dict` (fixes/C13-*) have
   no missing pair; on a tree where `from_dict` forgets a key this theorem fails and names the pair.
-* rule text, dictionary path (`Rule.to_dict` writes `str(condition)`, the tree IN ORDER): the condition tree survives
-  `str(condition)` → keyword split → `generate_control` exactly when it is a left-nested AND of left-nested ORs;
-  `(a AND b) OR c` does not (still so on HEAD: e0050eda repaired the INP writer only).
-* rule text, INP path after e0050eda (`flattenCnf`, the AND of OR-groups): EVERY tree is read back as its normal form
+* rule text BEFORE the repairs (`str(condition)` / the old INP writer wrote the tree IN ORDER): the tree survived exactly when
+  it is a left-nested AND of left-nested ORs; `(a AND b) OR c` did not — kept as `…_pinned` statements.
+* rule text now, both paths: the INP writer (e0050eda, `flattenCnf`) and `Rule.to_dict` (fb98e708: `str` of the canonical
+  tree, `dict_condition_text`) write the AND of OR-groups: EVERY tree is read back as its normal form
   `ofGroups (cnf c)`, which has the same groups, the same truth value under every valuation, and is written as the same
   clauses again; the statement about the old in-order writer is kept as `rule_condition_inorder_pinned`.
 -/
@@ -270,18 +270,19 @@ theorem finish_conjs (c : Cond α) : finish (conjs c) = some c := by
       simp only [finish, Option.some.injEq] at ihl
       simp [finish, List.foldl_append, ihl]
 
-/-- **`rule_condition_roundtrip`**: a condition that is a left-nested AND of left-nested ORs of atoms is
+/-- **pinned** (the in-order text `str(condition)` / the INP writer before e0050eda; still used as a lemma: the canonical
+tree written in order IS the text of its groups): a condition that is a left-nested AND of left-nested ORs of atoms is
 re-created exactly, whatever its size -/
-theorem rule_condition_roundtrip (c : Cond α) (hc : isShape c = true) : parse (flatten c .if_) = some c := by
+theorem inorder_roundtrip_on_shape_pinned (c : Cond α) (hc : isShape c = true) : parse (flatten c .if_) = some c := by
   unfold parse
   rw [run_shape c hc [] .if_ (by decide)]
   simp [finish_conjs]
 
 /-- the full statement "every condition tree is re-created" … -/
-def RuleConditionRoundtripFull : Prop := ∀ c : Cond Nat, parse (flatten c .if_) = some c
+def RuleConditionInOrderPinned : Prop := ∀ c : Cond Nat, parse (flatten c .if_) = some c
 
 /-- … is false: `(a AND b) OR c` comes back as `a AND (b OR c)` -/
-theorem rule_condition_counterexample : ¬ RuleConditionRoundtripFull := by
+theorem rule_condition_counterexample_pinned : ¬ RuleConditionInOrderPinned := by
   intro h
   have := h (.or (.and (.atom 0) (.atom 1)) (.atom 2))
   revert this
@@ -294,9 +295,9 @@ example : parse (flatten (Cond.or (.and (.atom 0) (.atom 1)) (.atom 2)) .if_) = 
 example : isShape (Cond.and (.and (.or (.atom 0) (.atom 1)) (.atom 2)) (.or (.or (.atom 3) (.atom 4)) (.atom 5))) = true := by decide
 
 /-- the text itself is stable from the first re-read on: what the parser produces has the shape -/
-theorem parse_idempotent_on_shape (c : Cond α) (hc : isShape c = true) :
+theorem parse_idempotent_on_shape_pinned (c : Cond α) (hc : isShape c = true) :
     (parse (flatten c .if_)).map (fun c' => flatten c' .if_) = some (flatten c .if_) := by
-  rw [rule_condition_roundtrip c hc]; rfl
+  rw [inorder_roundtrip_on_shape_pinned c hc]; rfl
 
 /-! ### the INP writer after e0050eda: every condition tree -/
 
@@ -307,7 +308,7 @@ theorem rule_condition_roundtrip_all [Inhabited α] (c : Cond α) : parse (flatt
   have h := flatten_ofGroups (cnf c) (cnf_ne_nil c).1 (cnf_ne_nil c).2
   unfold flattenCnf
   rw [← h]
-  apply rule_condition_roundtrip
+  apply inorder_roundtrip_on_shape_pinned
   -- the canonical tree is a left-nested AND of left-nested ORs
   have hor : ∀ (rest : List α) (t : Cond α), isDisj t = true → isDisj (rest.foldl (fun t x => Cond.or t (.atom x)) t) = true := by
     intro rest
@@ -343,13 +344,19 @@ open Wntr.InpNorm in
 theorem rule_condition_same_meaning [Inhabited α] (v : α → Bool) (c : Cond α) : eval v (ofGroups (cnf c)) = eval v c := by
   rw [eval_ofGroups v (cnf c) (cnf_ne_nil c).1 (cnf_ne_nil c).2, evalGroups_cnf]
 
+open Wntr.InpNorm in
+/-- the dictionary path since fb98e708: `Rule._condition_text` is `str` (the in-order text) of the canonical tree, which is
+clause for clause what the INP writer produces — one theorem (`rule_condition_roundtrip_all`) covers both paths -/
+theorem dict_condition_text [Inhabited α] (c : Cond α) : flatten (ofGroups (cnf c)) .if_ = flattenCnf c :=
+  flatten_ofGroups (cnf c) (cnf_ne_nil c).1 (cnf_ne_nil c).2
+
 /-- a condition that already is a left-nested AND of left-nested ORs is its own normal form: exact round trip -/
 theorem rule_condition_roundtrip_exact [Inhabited α] (c : Cond α) (h : ofGroups (cnf c) = c) : parse (flattenCnf c) = some c := by
   rw [rule_condition_roundtrip_all, h]
 
 /-- **pinned** — the writer BEFORE e0050eda wrote the tree in order; that statement was false (and is still the behaviour
-of the dictionary path, see `rule_condition_counterexample`) -/
-theorem rule_condition_inorder_pinned : ¬ (∀ c : Cond Nat, parse (flatten c .if_) = some c) := rule_condition_counterexample
+of neither path since fb98e708) -/
+theorem rule_condition_inorder_pinned : ¬ (∀ c : Cond Nat, parse (flatten c .if_) = some c) := rule_condition_counterexample_pinned
 
 /-- non-vacuity: `(a AND b) OR c` is now written as `IF a OR c AND b OR c` and read back as `(a OR c) AND (b OR c)` -/
 example : flattenCnf (Cond.or (.and (.atom 0) (.atom 1)) (.atom 2)) = [(.if_, 0), (.or_, 2), (.and_, 1), (.or_, 2)] ∧
